@@ -2,6 +2,7 @@
 
 use std::{collections::HashMap, path::Path, process::Command};
 
+use proptest::prelude::*;
 use serde_json::{json, Value};
 use vmodel::{
     engine::{fingerprint, Failure, ShardCtx, Tier, Verdict},
@@ -28,6 +29,7 @@ pub fn check() -> Check {
         rule: "Configurations: the session runner is built for all 8 subsets of {history, autocomplete, help} (macros and hooks on) - the build itself is part of the check. Inputs: random sessions as in C01/C05/C06 over a derived group, a derived enum and raw commands, rich in Up/Down, Tab and help-shaped lines. \
                Oracle (a), per build: the reference editor and dispatch model configured the same way - history off: Up/Down change nothing and emit nothing; autocomplete off: Tab likewise; help off: `help` / `--help` lines reach the handler with the reference tokens; everything else as with all features. \
                Oracle (b), metamorphic across builds: the session with the keys of the disabled facilities deleted, run on the full build, yields byte-identical sink output, handler log and editor states as the original session on the reduced build (with help disabled: only for sessions without help-shaped lines and without Tab on a prefix of `help`). \
+               Oracle (c), differential at byte level: sessions that mix raw CR / LF / ESC / `[` bytes around Tab and Up/Down; whenever the keys of a build's disabled facilities happen to be no-ops on the full build (nothing to complete, nothing to recall), that build must produce exactly the full build's trace for the same bytes. \
                Non-trivial = the session uses at least one key or line of a facility that is disabled in at least one compared build; distinct by (configuration, ops).",
         assumptions: &[
             "completion of prefixes of `help` when the help feature is off is left open (such sessions are not compared across the help axis)",
@@ -222,12 +224,40 @@ fn check_build(mask: usize, c: &Case, tr: &Value) -> Result<(), Fail> {
     Ok(())
 }
 
-fn help_axis_comparable(ops: &[Op], tr: &Value) -> bool {
+/// keys completed by each op at byte level (None = the stream touches a decoding zone left open)
+fn keys_per_op(cfg: &vmodel::session::Config, ops: &[Op]) -> Option<Vec<Vec<vmodel::refs::Key>>> {
+    let mut dec = vmodel::refs::RefDecoder::new();
+    let mut prev: Option<u8> = None;
+    let mut out = Vec::with_capacity(ops.len());
+    for op in ops {
+        let mut keys = Vec::new();
+        for byte in op.encode(cfg, prev) {
+            prev = Some(byte);
+            if let Some(k) = dec.accept(byte) {
+                keys.push(k);
+            }
+        }
+        out.push(keys);
+    }
+    if dec.unspecified {
+        None
+    } else {
+        Some(out)
+    }
+}
+
+fn help_axis_comparable(cfg: &vmodel::session::Config, ops: &[Op], tr: &Value) -> bool {
+    use vmodel::refs::Key;
+    let Some(keys) = keys_per_op(cfg, ops) else { return false };
     let steps = tr["steps"].as_array().cloned().unwrap_or_default();
-    for (op, st) in ops.iter().zip(steps.iter()) {
+    for (ks, st) in keys.iter().zip(steps.iter()) {
         let pre = line_of(st, "pre");
-        match op {
-            Op::Enter => match ref_tokens(&pre) {
+        if ks.contains(&Key::Enter) {
+            // an op that presses Enter (possibly after other keys of the same op): judge conservatively
+            if ks.len() > 1 && pre.contains('h') {
+                return false;
+            }
+            match ref_tokens(&pre) {
                 Some(t) => {
                     if !t.is_empty() && is_help_request(&t) != Some(false) {
                         return false;
@@ -238,14 +268,13 @@ fn help_axis_comparable(ops: &[Op], tr: &Value) -> bool {
                         return false;
                     }
                 }
-            },
-            Op::Tab => {
-                let w = pre.trim_matches(' ');
-                if !w.is_empty() && "help".starts_with(w) {
-                    return false;
-                }
             }
-            _ => {}
+        }
+        if ks.contains(&Key::Tab) {
+            let w = pre.trim_matches(' ');
+            if !w.is_empty() && "help".starts_with(w) {
+                return false;
+            }
         }
     }
     true
@@ -261,7 +290,7 @@ fn run_case(b: &mut Builds, c: &Case) -> Result<(bool, u64), Fail> {
     }
     let uses_hist = c.ops.iter().any(|o| matches!(o, Op::Up | Op::Down));
     let uses_tab = c.ops.iter().any(|o| matches!(o, Op::Tab));
-    let help_cmp = help_axis_comparable(&c.ops, &traces[7]);
+    let help_cmp = help_axis_comparable(&c.cfg, &c.ops, &traces[7]);
     let mut skipped = 0;
     // (b) metamorphic: projection on the full build == original on the reduced build
     let mut full_cache: HashMap<(bool, bool), Value> = HashMap::new();
@@ -271,7 +300,7 @@ fn run_case(b: &mut Builds, c: &Case) -> Result<(bool, u64), Fail> {
         let no_help = m & 4 == 0;
         // with help disabled the builds are only comparable on sessions without help-shaped lines
         // (judged on the lines each of the two compared runs actually submits)
-        if no_help && !help_axis_comparable(&c.ops, &traces[m]) {
+        if no_help && !help_axis_comparable(&c.cfg, &c.ops, &traces[m]) {
             skipped += 1;
             continue;
         }
@@ -282,7 +311,7 @@ fn run_case(b: &mut Builds, c: &Case) -> Result<(bool, u64), Fail> {
             full_cache.insert((no_hist, no_ac), t);
         }
         let full = &full_cache[&(no_hist, no_ac)];
-        if no_help && !help_axis_comparable(&projected, full) {
+        if no_help && !help_axis_comparable(&c.cfg, &projected, full) {
             skipped += 1;
             continue;
         }
@@ -315,6 +344,102 @@ fn run_case(b: &mut Builds, c: &Case) -> Result<(bool, u64), Fail> {
     }
     let has_help_line = !help_cmp;
     Ok((uses_hist || uses_tab || has_help_line, skipped))
+}
+
+/// (c) purely differential, byte level: if in the full build every key of a facility that is disabled in
+/// the reduced build happens to be a no-op in this session (Tab with nothing to complete, Up with nothing to
+/// recall), then the reduced build must produce exactly the same trace for the same bytes. Sessions here mix
+/// terminator encodings and lone ESC / `[` bytes around those keys, so that a facility which swallows its key
+/// too early (before the decoder sees it) is exposed.
+fn run_raw_case(b: &mut Builds, c: &Case) -> Result<(bool, u64), Fail> {
+    let full = b.trace(7, c, &c.ops)?;
+    let fsteps = full["steps"].as_array().cloned().unwrap_or_default();
+    let noop = |st: &Value| st["out"].as_str() == Some("") && st["line"] == st["pre"] && st["cursor"] == st["pre_cursor"] && st["calls"].as_array().map(|a| a.is_empty()).unwrap_or(true);
+    // which ops complete a Tab / Up / Down key at byte level (an arrow may be assembled from raw ESC, `[`, `A`)
+    let Some(keys) = keys_per_op(&c.cfg, &c.ops) else { return Ok((false, 1)) };
+    let is_tab: Vec<bool> = keys.iter().map(|k| k.contains(&vmodel::refs::Key::Tab)).collect();
+    let is_hist: Vec<bool> = keys.iter().map(|k| k.contains(&vmodel::refs::Key::Up) || k.contains(&vmodel::refs::Key::Down)).collect();
+    let tab_noop = fsteps.iter().enumerate().all(|(i, st)| !is_tab[i] || noop(st));
+    let hist_noop = fsteps.iter().enumerate().all(|(i, st)| !is_hist[i] || noop(st));
+    let help_ok = help_axis_comparable(&c.cfg, &c.ops, &full);
+    let mut skipped = 0;
+    let mut compared = false;
+    for m in 0..7usize {
+        let no_hist = m & 1 == 0;
+        let no_ac = m & 2 == 0;
+        let no_help = m & 4 == 0;
+        if (no_hist && !hist_noop) || (no_ac && !tab_noop) || (no_help && !help_ok) {
+            skipped += 1;
+            continue;
+        }
+        let t = b.trace(m, c, &c.ops)?;
+        if no_help && !help_axis_comparable(&c.cfg, &c.ops, &t) {
+            skipped += 1;
+            continue;
+        }
+        compared = true;
+        let rsteps = t["steps"].as_array().cloned().unwrap_or_default();
+        if t["init"] != full["init"] {
+            return Err((format!("build [{}] prints the same initial prompt as the full build", mask_name(m)), format!("{} vs {}", t["init"], full["init"])));
+        }
+        for (i, (fs, rs)) in fsteps.iter().zip(rsteps.iter()).enumerate() {
+            for key in ["out", "line", "cursor", "calls", "prompt", "err"] {
+                if fs[key] != rs[key] {
+                    let show = |v: &Value| match v.as_str() {
+                        Some(h) => format!("{:?}", String::from_utf8_lossy(&unhex(h))),
+                        None => v.to_string(),
+                    };
+                    return Err((
+                        format!(
+                            "build [{}] behaves exactly like the full build on a session in which the keys of its disabled facilities have no effect in the full build: op #{} ({:?}) has {} = {}",
+                            mask_name(m),
+                            i,
+                            c.ops[i],
+                            key,
+                            show(&fs[key])
+                        ),
+                        show(&rs[key]),
+                    ));
+                }
+            }
+        }
+    }
+    let around = c.ops.windows(3).any(|w| matches!(w[1], Op::Tab | Op::Up | Op::Down) && matches!(w[0], Op::Raw(_) | Op::Enter) && matches!(w[2], Op::Raw(_) | Op::Enter));
+    Ok((compared && around, skipped))
+}
+
+fn raw_case_strategy() -> impl Strategy<Value = Case> {
+    use super::common::pick;
+    let chars = vec!['a', 'x', 'g', 'h', ' ', '-', 'é', '[', 'A', 'B'];
+    let texts = vec!["get-led 1", "zz", "exit", "q -v", "эхо hi"];
+    let op = prop_oneof![
+        10 => any::<u16>().prop_map(move |s| Op::Char(pick(&chars, s))),
+        4 => any::<u16>().prop_map(move |s| Op::Text(pick(&texts, s).to_string())),
+        6 => Just(Op::Raw(vec![b'\r'])),
+        6 => Just(Op::Raw(vec![b'\n'])),
+        3 => Just(Op::Raw(vec![0x1B])),
+        2 => Just(Op::Raw(vec![b'['])),
+        8 => Just(Op::Tab),
+        4 => Just(Op::Up),
+        3 => Just(Op::Down),
+        2 => Just(Op::Left),
+        2 => Just(Op::Backspace),
+    ];
+    (
+        prop_oneof![Just(0usize), Just(8), Just(32)],
+        prop_oneof![Just(0usize), Just(0), Just(16)],
+        prop_oneof![Just("raw"), Just("enum"), Just("group")],
+        proptest::collection::vec(op, 1..25),
+    )
+        .prop_map(|(cb, hb, set, ops)| Case {
+            cfg: vmodel::session::Config {
+                cmd_buf: cb,
+                hist_buf: hb,
+                set: set.to_string(),
+                ..Default::default()
+            },
+            ops,
+        })
 }
 
 fn run_shard(ctx: &ShardCtx) {
@@ -352,11 +477,33 @@ fn run_shard(ctx: &ShardCtx) {
             Err((e, o)) => Err(Failure::new("feature-matrix", Value::Null, e, o)),
         },
     );
+    ctx.run_prop(
+        "feature-matrix-raw",
+        ctx.tier.pick(60_000, 600_000),
+        raw_case_strategy(),
+        case_json,
+        |c| match run_raw_case(&mut b.borrow_mut(), c) {
+            Ok((nt, skipped)) => {
+                for _ in 0..skipped {
+                    ctx.skipped();
+                }
+                if nt {
+                    ctx.class("raw sessions with a disabled-facility key between terminator / ESC bytes, compared byte for byte");
+                    ctx.nontrivial(fingerprint(&("raw", &c.cfg, &c.ops)), || case_json(c));
+                }
+                Ok(())
+            }
+            Err((e, o)) => Err(Failure::new("feature-matrix-raw", Value::Null, e, o)),
+        },
+    );
     ctx.exhaustive("all 8 feature subsets built and compared", !ctx.failed());
 }
 
 fn replay(sub: &str, case: &Value) -> Verdict {
     let c = case_from_json(case).map_err(|e| Failure::new(sub, case.clone(), "a well-formed case", e))?;
     let mut b = Builds::start().map_err(|e| Failure::new(sub, case.clone(), "feature builds present (run the check once, or setup.sh)", e))?;
+    if sub == "feature-matrix-raw" {
+        return run_raw_case(&mut b, &c).map(|_| ()).map_err(|(e, o)| Failure::new(sub, case.clone(), e, o));
+    }
     run_case(&mut b, &c).map(|_| ()).map_err(|(e, o)| Failure::new(sub, case.clone(), e, o))
 }
